@@ -7,6 +7,7 @@ import (
 	"path/filepath"
 	"sort"
 	"strings"
+	"sync"
 	"time"
 
 	"golang.org/x/tools/go/packages"
@@ -77,6 +78,13 @@ func LoadProgram(harnessDir string) (*Program, error) {
 	}
 	overlay[filepath.Join(RepoDir, "zzverif/api/api.go")] = shared
 	extra["./zzverif/api"] = true
+	std, err := StdOverlay()
+	if err != nil {
+		return nil, err
+	}
+	for k, v := range std {
+		overlay[k] = v
+	}
 	cfg := &packages.Config{
 		Mode:    packages.LoadAllSyntax,
 		Dir:     RepoDir,
@@ -149,6 +157,10 @@ type Harness struct {
 	// SampleModels: number of completed paths for which a model of the path
 	// condition is extracted (used for native cross-validation).
 	SampleModels int
+	Workers      int
+	// SetGlobals overrides int-typed package-level variables of the harness
+	// package after initialisation (bounds such as input sizes per tier).
+	SetGlobals map[string]int64
 }
 
 type PathSample struct {
@@ -187,6 +199,7 @@ type Report struct {
 	SampleInputs []string
 	PathsTruncated bool
 	Samples      []PathSample
+	samplePending int
 }
 
 func (r *Report) OK() bool {
@@ -256,47 +269,91 @@ func (p *Program) Explore(h *Harness) *Report {
 	if to == 0 {
 		to = 60000
 	}
-	s, err := NewSolver(solverKind, to)
-	if err != nil {
-		rep.EngineErrors = append(rep.EngineErrors, err.Error())
-		return rep
-	}
-	defer s.Close()
-	if os.Getenv("VERIF_SMTLOG") != "" {
-		f, _ := os.Create(os.Getenv("VERIF_SMTLOG") + "." + h.Func + ".smt2")
-		if f != nil {
-			defer f.Close()
-			s.Log = f
-		}
-	}
-	b := NewBuilder()
 	maxPaths := h.MaxPaths
 	if maxPaths == 0 {
 		maxPaths = 20000
 	}
-	assum := map[string]bool{}
+	maxWorkers := h.Workers
+	if maxWorkers <= 0 {
+		maxWorkers = 8
+	}
+	var mu sync.Mutex
+	cond := sync.NewCond(&mu)
 	work := [][]Decision{nil}
+	active := 0
+	workers := 0
+	stop := false
+	assum := map[string]bool{}
 	seenViol := map[string]bool{}
-	for len(work) > 0 {
-		if rep.Paths >= maxPaths {
-			rep.PathsTruncated = true
-			rep.BoundsHit = append(rep.BoundsHit, fmt.Sprintf("path budget %d exhausted with %d prefixes pending", maxPaths, len(work)))
-			break
+	var wg sync.WaitGroup
+
+	var worker func()
+	worker = func() {
+		defer wg.Done()
+		s, err := NewSolver(solverKind, to)
+		if err != nil {
+			mu.Lock()
+			rep.EngineErrors = append(rep.EngineErrors, err.Error())
+			stop = true
+			workers--
+			cond.Broadcast()
+			mu.Unlock()
+			return
 		}
-		prefix := work[len(work)-1]
-		work = work[:len(work)-1]
-		s.PopTo(0)
-		e := p.newExec(h, b, s)
-		e.prefix = prefix
-		b.fresh = 0
-		outcome := e.runPath(sp, fn, h)
-		rep.Paths++
-		switch outcome.kind {
-		case "completed":
-			rep.Completed++
-			if len(rep.Samples) < h.SampleModels && len(e.inputs) > 0 {
+		defer s.Close()
+		b := NewBuilder()
+		for {
+			mu.Lock()
+			for len(work) == 0 && active > 0 && !stop {
+				cond.Wait()
+			}
+			if stop || (len(work) == 0 && active == 0) {
+				rep.Queries += s.Queries
+				rep.Sat += s.NSat
+				rep.Unsat += s.NUnsat
+				rep.Unknown += s.NUnknown
+				rep.SolverTime += s.Time
+				rep.SolverErrors = append(rep.SolverErrors, s.Errors...)
+				workers--
+				cond.Broadcast()
+				mu.Unlock()
+				return
+			}
+			if rep.Paths+active >= maxPaths {
+				rep.PathsTruncated = true
+				rep.BoundsHit = append(rep.BoundsHit, fmt.Sprintf("path budget %d exhausted with %d prefixes pending", maxPaths, len(work)))
+				stop = true
+				cond.Broadcast()
+				mu.Unlock()
+				continue
+			}
+			prefix := work[len(work)-1]
+			work = work[:len(work)-1]
+			active++
+			// spawn another worker if there is more work
+			if len(work) > 0 && workers < maxWorkers {
+				workers++
+				wg.Add(1)
+				go worker()
+			}
+			mu.Unlock()
+
+			pathSlots <- struct{}{}
+			s.PopTo(0)
+			e := p.newExec(h, b, s)
+			e.prefix = prefix
+			b.fresh = 0
+			outcome := e.runPath(sp, fn, h)
+			var sample *PathSample
+			mu.Lock()
+			needSample := outcome.kind == "completed" && len(rep.Samples)+rep.samplePending < h.SampleModels && len(e.inputs) > 0
+			if needSample {
+				rep.samplePending++
+			}
+			mu.Unlock()
+			if needSample {
 				if r, vals := s.CheckModel(e.inputs); r == Sat {
-					ps := PathSample{}
+					ps := &PathSample{}
 					for l := range e.reaches {
 						ps.Reaches = append(ps.Reaches, l)
 					}
@@ -304,72 +361,95 @@ func (p *Program) Explore(h *Harness) *Report {
 					for i, in := range e.inputs {
 						ps.Inputs = append(ps.Inputs, InputVal{Name: in.Name, Tag: e.inputTags[i], Sort: in.Sort, Val: vals[i]})
 					}
-					rep.Samples = append(rep.Samples, ps)
+					sample = ps
 				}
 			}
-		case "aborted":
-			rep.Aborted++
-		case "stopped":
-			rep.Stopped++
-		case "engine":
-			rep.EngineErrors = append(rep.EngineErrors, outcome.msg)
-		case "bound":
-			rep.BoundsHit = append(rep.BoundsHit, outcome.msg)
-		}
-		work = append(work, e.forks...)
-		for _, v := range e.violations {
-			key := v.Kind + "|" + v.Label + "|" + v.Detail
-			if !seenViol[key] || len(rep.Violations) < 50 {
-				rep.Violations = append(rep.Violations, v)
+			<-pathSlots
+
+			mu.Lock()
+			active--
+			rep.Paths++
+			if needSample {
+				rep.samplePending--
+				if sample != nil {
+					rep.Samples = append(rep.Samples, *sample)
+				}
 			}
-			seenViol[key] = true
-		}
-		for l := range e.reaches {
-			rep.Reaches[l]++
-		}
-		for f, n := range e.calls {
-			rep.Funcs[f] += n
-		}
-		for a := range e.assumptions {
-			assum[a] = true
-		}
-		rep.Inconclusive = append(rep.Inconclusive, e.inconclusive...)
-		if len(rep.Notes) < 20 {
-			rep.Notes = append(rep.Notes, e.notes...)
-		}
-		rep.Steps += e.steps
-		if e.steps > rep.MaxPathSteps {
-			rep.MaxPathSteps = e.steps
-		}
-		if e.allocated > rep.MaxAlloc {
-			rep.MaxAlloc = e.allocated
-		}
-		rep.Asserts += e.nAsserts
-		rep.TrivialAsserts += e.nTrivial
-		rep.Decisions += len(e.trace)
-		if len(e.inputs) > rep.Inputs {
-			rep.Inputs = len(e.inputs)
-		}
-		if e.unknowns > 0 {
-			rep.Inconclusive = append(rep.Inconclusive, fmt.Sprintf("%d feasibility queries returned unknown on one path (both sides kept)", e.unknowns))
-		}
-		if h.Verbose {
-			fmt.Fprintf(os.Stderr, "  path %d: %s %s steps=%d decisions=%d forks=%d\n", rep.Paths, outcome.kind, outcome.msg, e.steps, len(e.trace), len(e.forks))
-		}
-		if len(rep.EngineErrors) > 20 {
-			break
+			switch outcome.kind {
+			case "completed":
+				rep.Completed++
+			case "aborted":
+				rep.Aborted++
+			case "stopped":
+				rep.Stopped++
+			case "engine":
+				rep.EngineErrors = append(rep.EngineErrors, outcome.msg)
+			case "bound":
+				rep.BoundsHit = append(rep.BoundsHit, outcome.msg)
+			}
+			work = append(work, e.forks...)
+			for _, v := range e.violations {
+				key := v.Kind + "|" + v.Label + "|" + v.Detail
+				if !seenViol[key] || len(rep.Violations) < 50 {
+					rep.Violations = append(rep.Violations, v)
+				}
+				seenViol[key] = true
+			}
+			for l := range e.reaches {
+				rep.Reaches[l]++
+			}
+			for f, n := range e.calls {
+				rep.Funcs[f] += n
+			}
+			for a := range e.assumptions {
+				assum[a] = true
+			}
+			rep.Inconclusive = append(rep.Inconclusive, e.inconclusive...)
+			if len(rep.Notes) < 20 {
+				rep.Notes = append(rep.Notes, e.notes...)
+			}
+			rep.Steps += e.steps
+			if e.steps > rep.MaxPathSteps {
+				rep.MaxPathSteps = e.steps
+			}
+			if e.allocated > rep.MaxAlloc {
+				rep.MaxAlloc = e.allocated
+			}
+			rep.Asserts += e.nAsserts
+			rep.TrivialAsserts += e.nTrivial
+			rep.Decisions += len(e.trace)
+			if len(e.inputs) > rep.Inputs {
+				rep.Inputs = len(e.inputs)
+			}
+			if e.unknowns > 0 {
+				rep.Inconclusive = append(rep.Inconclusive, fmt.Sprintf("%d feasibility queries returned unknown on one path (both sides kept)", e.unknowns))
+			}
+			if h.Verbose {
+				fmt.Fprintf(os.Stderr, "  path %d: %s %s steps=%d decisions=%d forks=%d\n", rep.Paths, outcome.kind, outcome.msg, e.steps, len(e.trace), len(e.forks))
+			}
+			if len(rep.EngineErrors) > 20 {
+				stop = true
+			}
+			cond.Broadcast()
+			mu.Unlock()
 		}
 	}
+	mu.Lock()
+	workers++
+	wg.Add(1)
+	mu.Unlock()
+	go worker()
+	wg.Wait()
 	for a := range assum {
 		rep.Assumptions = append(rep.Assumptions, a)
 	}
 	sort.Strings(rep.Assumptions)
-	rep.Queries, rep.Sat, rep.Unsat, rep.Unknown = s.Queries, s.NSat, s.NUnsat, s.NUnknown
-	rep.SolverTime = s.Time
-	rep.SolverErrors = s.Errors
 	rep.Wall = time.Since(t0)
 	return rep
 }
+
+// pathSlots bounds the number of paths executing at once across all harnesses.
+var pathSlots = make(chan struct{}, 16)
 
 type pathOutcome struct {
 	kind string
@@ -404,6 +484,13 @@ func (e *Exec) runPath(sp *ssa.Package, fn *ssa.Function, h *Harness) (out pathO
 	// package initialisation (dependencies are run through the init call chain)
 	if init := sp.Func("init"); init != nil {
 		e.callSSA(nil, 0, init, nil, nil)
+	}
+	for name, val := range h.SetGlobals {
+		g, ok := sp.Members[name].(*ssa.Global)
+		if !ok {
+			panic(errorf("SetGlobals: no global %s", name))
+		}
+		*e.globals[g] = e.mkInt(val)
 	}
 	e.steps = 0
 	e.allocated = 0
